@@ -19,7 +19,7 @@ from vlib import Check
 def feature(v):
     r = v["req"]
     wild = any(p["ep"] < 0 or p["cl"] < 0 or p["leaf"] < 0 for p in r["paths"])
-    return "%s|%s|%s|%s|acl%d" % (r["kind"], "timed" if r["timed"] else "untimed", "wild" if wild else "concrete", v["who"]["mode"], len(v["acl"]))
+    return "%s|%s|%s|%s|acl%d" % (r["kind"], ("late" if r.get("late") else "timed") if r["timed"] else "untimed", "wild" if wild else "concrete", v["who"]["mode"], len(v["acl"]))
 
 def run(tier, seed):
     ck = Check("C06", tier, seed)
@@ -59,7 +59,14 @@ def run(tier, seed):
                 expected[tuple(s)] += 1
         n_sel += sum(expected.values())
         what = None
-        if t["error"]:
+        if v["req"].get("late"):
+            # the timed window had expired when the write / invoke arrived: refused as a whole, nothing acted on
+            acted = [h for h in t["handler"] if h["h"] != "read"]
+            if acted:
+                what = ("late-acted", "a %s that arrived after its timed window was acted on: %s" % (kind, acted[:3]))
+            elif not t["error"] and any(i.get("k") == "status" and i.get("status") == "Success" for i in t["items"]):
+                what = ("late-accepted", "a %s that arrived after its timed window was answered with success: %s" % (kind, t["items"][:3]))
+        elif t["error"]:
             what = ("request-failed", "the request as a whole failed: %s" % t["error"])
         else:
             calls = collections.Counter(key(h) for h in t["handler"] if h["h"] == kind)
